@@ -80,15 +80,22 @@ func (t *verifTicker) Reset(d time.Duration)      {}
 
 type verifClock struct {
 	clockwork.Clock
-	now  time.Time
-	tick *verifTicker
+	now     time.Time
+	tick    *verifTicker // the worker's send ticker
+	monTick *verifTicker // the collector monitor's 100 ms ticker (only fed when a harness wants it)
+	splitMonitor bool
 }
 
 func (c *verifClock) Now() time.Time                  { return c.now }
 func (c *verifClock) Since(t time.Time) time.Duration { return c.now.Sub(t) }
 func (c *verifClock) NewTicker(d time.Duration) clockwork.Ticker {
-	c.tick = &verifTicker{ch: make(chan time.Time, 1)}
-	return c.tick
+	t := &verifTicker{ch: make(chan time.Time, 1)}
+	if c.splitMonitor && d == 100*time.Millisecond {
+		c.monTick = t
+	} else {
+		c.tick = t
+	}
+	return t
 }
 
 // ---- a collector with hand-built workers running the REAL collect() loop ----
